@@ -2,6 +2,7 @@
 #![allow(unused_imports, dead_code, unused_variables, unused_mut)]
 use vstd::prelude::*;
 use vstd::std_specs::iter::IteratorSpec;
+use std::collections::HashMap;
 
 //@@ include prelude/kernel_model.rs
 
@@ -137,6 +138,51 @@ pub open spec fn deltas_upto(ev: Seq<Event>, n: int) -> Seq<char>
         it0.snapshot@.remaining().len() == events@.len(),
         forall|k: int| 0 <= k < events@.len() ==> *(#[trigger] it0.snapshot@.remaining()[k]) == events@[k],
         out@ == deltas_upto(events@, it0.index@),
+//@@ end
+
+// ---- which run answered which message, as far as the cut point ---------------------------------------------
+// trusted: String keys behave in std's HashMap (Hash and Eq of String are deterministic and consistent)
+pub broadcast axiom fn axiom_string_obeys_key_model() ensures #[trigger] vstd::std_specs::hash::obeys_key_model::<String>();
+// fold over the first k frames: a later run-ended frame for the same message replaces an earlier one
+pub open spec fn ended_upto(events: Seq<Event>, k: int) -> Map<String, String>
+    decreases k
+{
+    if k <= 0 { Map::empty() } else {
+        let m = ended_upto(events, k - 1);
+        match events[k - 1].kind {
+            EventKind::ContinuityRunEnded { run_session_id, message_id, .. } => m.insert(message_id, run_session_id),
+            _ => m,
+        }
+    }
+}
+// k = number of leading frames at or before the cut point (the first frame after the cut ends the scan)
+pub open spec fn cut_prefix(events: Seq<Event>, from: u64, k: int) -> bool {
+    &&& 0 <= k <= events.len()
+    &&& forall|i: int| 0 <= i < k ==> (#[trigger] events[i]).seq <= from
+    &&& (k < events.len() ==> events[k].seq > from)
+}
+//@@ fn crates/ripd/src/context_compiler.rs ended_runs_by_message_id r7=0
+//@@ sig
+    ensures
+        // exactly the run-ended frames at or before the cut point decide the replies; frames after it have no influence
+        exists|k: int| cut_prefix(continuity_events@, from_seq, k) && ret@ == ended_upto(continuity_events@, k),     // [ended_runs.exactly_the_run_ended_frames_at_or_before_the_cut_last_one_wins]
+//@@ entry
+    broadcast use vstd::std_specs::hash::group_hash_axioms; broadcast use axiom_string_obeys_key_model;
+//@@ loop 0
+    invariant_except_break
+        forall|j: int| 0 <= j < __i0 ==> (#[trigger] continuity_events@[j]).seq <= from_seq,
+        ended@ == ended_upto(continuity_events@, __i0 as int),
+    invariant
+        __s0@ == continuity_events@,
+        __i0 <= continuity_events@.len(),
+    ensures
+        exists|k: int| cut_prefix(continuity_events@, from_seq, k) && ended@ == ended_upto(continuity_events@, k),
+    decreases continuity_events@.len() - __i0
+//@@ loopbody 0
+    broadcast use vstd::std_specs::hash::group_hash_axioms; broadcast use axiom_string_obeys_key_model;
+//@@ before break 0
+    proof { assert(cut_prefix(continuity_events@, from_seq, __i0 - 1)); }
+//@@ afterloop 0
 //@@ end
 
 } // verus!
